@@ -57,6 +57,10 @@ def specVerify (valid : Valid) (now : Int) (t u : H) (accepted : Bool) : Bool :=
 def specVerifyAdjacentExact (valid : Valid) (now : Int) (t u : H) (accepted : Bool) : Bool :=
   !decide (u.height = t.height + 1) || (accepted == linkOK valid now t u)
 
+/-- `verify_adjacent`: accepted exactly when the header is adjacent and linked -/
+def specVerifyAdjacentOp (valid : Valid) (now : Int) (t u : H) (accepted : Bool) : Bool :=
+  accepted == (decide (u.height = t.height + 1) && linkOK valid now t u)
+
 /-- every element links to its predecessor and heights are consecutive (steps numbered from `i`) -/
 def chainOK (valids : Nat → Valid) (now : Int) : Nat → H → List H → Bool
   | _, _, [] => true
